@@ -6,7 +6,7 @@ from ..cfg import cfg_of, always_raises
 from ..effects import MUTATING
 from ..astutil import pubnorm, dotted, get_arg, derived, norm, enclosing, names_in, defs_of, assignments
 from ..srcmodel import own_nodes, AnalysisError
-from .C17 import find_committer, find_appenders, d2_data_owners, d2_commit_counts
+from .C17 import find_committer, find_appenders, d2_data_owners, d2_commit_counts, commit_delta, committer_kind
 from .C09 import d3_checker, d2_accumulator, d4_iterable, product_atoms, expand_props, recover
 from .C20 import fold
 from ._shared import raised_names
@@ -160,7 +160,7 @@ def d4_truncate(ctx, committer):
     # committer arg
     for node, cal in ctx.E.callees(f):
         if cal is committer and isinstance(node, ast.Call):
-            a = get_arg(node, 0, 'lenincrease')
+            a = commit_delta(ctx, committer, node, f)
             if isinstance(a, ast.Name):
                 ds = [v for v, _ in defs_of(f.node, a.id)]
                 a = ds[0] if len(ds) == 1 else a
@@ -194,6 +194,14 @@ def d5_cache(ctx, c, committer):
                 for sh in ('self._shape', 'self.shape'):
                     if t in (f'({sh}[0]+{param},)+{sh}[1:]', f'({param}+{sh}[0],)+{sh}[1:]',
                              f'({sh}[0]+{param},*{sh}[1:])', f'({sh}[0]+{param},)+tuple({sh}[1:])'):
+                        ok = True
+    if not ok and not aug and committer_kind(ctx, committer) == 'absolute':
+        # absolute committer: self._shape = (<param>,) + <shape>[1:]  (only the first extent is replaced)
+        for f_, v_, st_ in c.attr_exprs.get('_shape', []):
+            if f_ is committer:
+                t = canon(committer, v_).replace(' ', '')
+                for sh in ('self._shape', 'self.shape'):
+                    if t in (f'({param},)+{sh}[1:]', f'({param},)+tuple({sh}[1:])', f'({param},*{sh}[1:])'):
                         ok = True
     anyaug = [n for n in own_nodes(body) if isinstance(n, ast.AugAssign) and isinstance(n.target, ast.Subscript)]
     if ok or anyaug:
